@@ -54,6 +54,11 @@ var vnRevEntities = map[byte][]byte{
 	'&': []byte("&amp;"),
 }
 
+// a second, smaller reverse map (no entry for '&'): both are consistent with HTML
+var vnRevEntities2 = map[byte][]byte{
+	'<': []byte("&lt;"),
+}
+
 func vnEntityAlphabet(b []byte) {
 	for i := range b {
 		c := b[i]
@@ -181,14 +186,22 @@ func VerifEntities() {
 		b = append(append([]byte("&#x&#"), b...), ';')
 	case 7:
 		b = append(append([]byte("&#&#x"), b...), ';')
+	case 8: // a numeric reference to '&' followed by text that could complete a reference
+		b = append([]byte("&#38;"), b...)
+	case 9:
+		b = append([]byte("&#x26;"), b...)
 	}
 	n = len(b)
 	orig := append([]byte(nil), b...)
-	out := ReplaceEntities(append(make([]byte, 0, n+1), b...), vnEntities, vnRevEntities)
+	rev := vnRevEntities
+	if vRange("rev", 0, 1) == 1 {
+		rev = vnRevEntities2
+	}
+	out := ReplaceEntities(append(make([]byte, 0, n+1), b...), vnEntities, rev)
 	vObserve("out", out)
 	vAssert(len(out) <= n, "replace-entities-longer")
 	out1 := append([]byte(nil), out...)
-	out2 := ReplaceEntities(append([]byte(nil), out...), vnEntities, vnRevEntities)
+	out2 := ReplaceEntities(append([]byte(nil), out...), vnEntities, rev)
 	vAssert(string(out2) == string(out1), "replace-entities-not-idempotent")
 	vnNulRef = false
 	d1 := refHTMLDecode(orig)
